@@ -1182,6 +1182,10 @@ class SCFGIO:
         for b in sorted(blocks):
             ys += indent(f"'{b}':\n", " " * 8)
             for k, v in blocks[b].items():
+                # Quote strings, a name such as '1' must not be read back as
+                # an integer.
+                if isinstance(v, str):
+                    v = repr(v)
                 ys += indent(f"{k}: {v}\n", " " * 12)
 
         ys += "\nedges:\n"
